@@ -278,6 +278,9 @@ void Pre_BiCGStab(ParCSRMatrix* A, ParVector& x, ParVector& b, ParMultilevel *ml
     p.resize(b.global_n, b.local_n);
     Ap.resize(b.global_n, b.local_n);
     As.resize(b.global_n, b.local_n);
+    s.resize(b.global_n, b.local_n);
+    p_hat.resize(b.global_n, b.local_n);
+    s_hat.resize(b.global_n, b.local_n);
 
     // BEGIN ALGORITHM
     // r0 = b - A * x0
